@@ -4,13 +4,15 @@ Require Import LV.Base LV.VV LV.Path LV.Prog.
 
 Inductive action :=
   | AOpaque | ALoad | AStore | ARmw | ARefInc | ARefDec | AInspect
-  | ASend | ARecv | ARead | AWrite.
+  | ASend | ARecv | ARead | AWrite
+  | AOpaqueTry | ATryRead | ATryWrite.
 
 Definition action_eqb (a b : action) : bool :=
   match a, b with
   | AOpaque, AOpaque | ALoad, ALoad | AStore, AStore | ARmw, ARmw
   | ARefInc, ARefInc | ARefDec, ARefDec | AInspect, AInspect
-  | ASend, ASend | ARecv, ARecv | ARead, ARead | AWrite, AWrite => true
+  | ASend, ASend | ARecv, ARecv | ARead, ARead | AWrite, AWrite
+  | AOpaqueTry, AOpaqueTry | ATryRead, ATryRead | ATryWrite, ATryWrite => true
   | _, _ => false
   end.
 
@@ -36,7 +38,8 @@ Definition store_default : astore := mkStore 0%N vv_new vv_new vv_new seen_new f
 Record atomic_state := mkAtomic {
   at_loaded : vv; at_unsync_loaded : vv; at_stored : vv; at_unsync_mut : vv;
   at_mutating : bool;
-  at_last : option access; at_last_nonload : option access;
+  at_last_loads : list (option access);   (* last load of each thread *)
+  at_last_nonload : option access;
   at_stores : list astore;        (* [Store; MAX_ATOMIC_HISTORY] *)
   at_cnt : nat
 }.
@@ -113,11 +116,22 @@ Inductive panic :=
 Definition access_hb (a : access) (v : vv) : bool := vv_le (a_vv a) v.
 Definition set_or_create (path_id : nat) (v : vv) : option access := Some (mkAccess path_id v).
 
-(* Store::last_dependent_access, dispatching on the object kind *)
-Definition last_dependent_access (o : object) (act : action) : option (option access) :=
+Definition opt_list {A} (o : option A) : list A := match o with Some x => [x] | None => [] end.
+
+Fixpoint flatten_opts {A} (l : list (option A)) : list A :=
+  match l with
+  | [] => []
+  | Some x :: t => x :: flatten_opts t
+  | None :: t => flatten_opts t
+  end.
+
+(* Store::last_dependent_accesses, dispatching on the object kind.
+   None = "object is not branchable". *)
+Definition last_dependent_accesses (o : object) (act : action) : option (list access) :=
   match o with
   | OArc s =>
-      Some match act with
+      Some (opt_list
+           match act with
            | ARefInc => arc_last_inspect s
            | ARefDec => arc_last_dec s
            | _ => match arc_last_mod s with
@@ -125,19 +139,20 @@ Definition last_dependent_access (o : object) (act : action) : option (option ac
                   | Some RMDec => arc_last_dec s
                   | None => None
                   end
-           end
+           end)
   | OAtomic s =>
-      Some match act with ALoad => at_last_nonload s | _ => at_last s end
-  | OMutex s => Some (mx_last s)
-  | OCondvar s => Some (cv_last s)
-  | ONotify s => Some (nt_last s)
-  | ORwLock s => Some (rw_last s)
+      Some (opt_list (at_last_nonload s) ++
+            match act with ALoad => [] | _ => flatten_opts (at_last_loads s) end)
+  | OMutex s => Some (opt_list (mx_last s))
+  | OCondvar s => Some (opt_list (cv_last s))
+  | ONotify s => Some (opt_list (nt_last s))
+  | ORwLock s => Some (opt_list (rw_last s))
   | OChannel s =>
-      Some match act with ASend => ch_last_send s | _ => ch_last_recv s end
-  | _ => None    (* "object is not branchable" *)
+      Some (opt_list match act with ASend => ch_last_send s | _ => ch_last_recv s end)
+  | _ => None
   end.
 
-Definition set_last_access (o : object) (act : action) (path_id : nat) (v : vv) : object :=
+Definition set_last_access (o : object) (act : action) (tid : nat) (path_id : nat) (v : vv) : object :=
   let acc := set_or_create path_id v in
   match o with
   | OArc s =>
@@ -148,7 +163,8 @@ Definition set_last_access (o : object) (act : action) (path_id : nat) (v : vv) 
       end
   | OAtomic s =>
       OAtomic (mkAtomic (at_loaded s) (at_unsync_loaded s) (at_stored s) (at_unsync_mut s)
-                 (at_mutating s) acc
+                 (at_mutating s)
+                 (match act with ALoad => list_set (at_last_loads s) tid acc | _ => at_last_loads s end)
                  (match act with ALoad => at_last_nonload s | _ => acc end)
                  (at_stores s) (at_cnt s))
   | OMutex s => OMutex (mkMutex (mx_seqcst s) (mx_lock s) acc (mx_sync s))
